@@ -67,6 +67,7 @@ def run_one(mutant, repo):
                 capture_output=True,
                 text=True,
                 env=env,
+                timeout=120,
             )
             fired = res.returncode == 1 and "VIOLATION property=" + prop in res.stdout
             lines = [l for l in res.stdout.splitlines() if l.startswith(("VIOLATION", "ANALYSIS-ERROR", "  C")) and ("VIOLATION" in l or "ANALYSIS" in l or " at " in l)]
